@@ -122,6 +122,7 @@ CANARIES = {
         ("millisecond-truncation-off", "stix2/utils.py", "int+1", ["parse_into_datetime", "1000 -> 1001"], "C15.truncate"),
         ("naive-stays-naive", "stix2/utils.py", "text", ["            if ts.tzinfo is None or ts.tzinfo.utcoffset(ts) is None:\n", "            if False:\n"], "C15.value-object"),
         ("fold-dropped", "stix2/utils.py", "text", ['            kwargs.setdefault("fold", dttm.fold)\n', ""], "C15.value-object"),
+        ("truncated-on-local-reading", "stix2/utils.py", "text", ["                ts = ts.astimezone(pytz.utc)\n", "                pass\n"], "C15.utc"),
         ("copy-loses-precision", "stix2/utils.py", "text", ["    def __reduce_ex__(self, protocol):", "    def _unused_reduce(self, protocol):"], "C15.value-object"),
     ],
     "C16": [
